@@ -66,7 +66,7 @@ PROPS = {
         pkg="c14", units=[rapid("TestProp", 45000, 200000), rapid("TestPropSeq", 30000, 150000), fuzz("FuzzEnsure", 60)], assumptions=COMMON_ASSUME,
         technique="property-based testing (rapid): generated extension paths vs a reference ensure+add model, ordered comparison, independent pointer lookup, agreement with plain add; coverage-guided native fuzzing of the same oracle over raw bytes in the thorough tier",
         level_text="Generated-input search: an existing container path is extended by generated tokens (escaped names, indices, '-'); the output must equal the reference ensure+add result including member order (frame condition and 'nothing but path and padding' in one comparison), the value must be found at the path by an independent lookup, and the result must equal plain add's whenever plain add succeeds. Judged only in the property's clear domain. Exploration only.",
-        level_note="Trusted: harness/ref ensure model. Excluded and counted: null/scalar on the path, names addressed into arrays, last index beyond an existing array, negative and non-canonical indices, '-' before the last token.",
+        level_note="Trusted: harness/ref ensure model. Excluded and counted: null/scalar on the path, last index beyond an existing array (a member name addressed into an existing array is a failure, as without the option), negative and non-canonical indices, '-' before the last token.",
     ),
     "C15": dict(
         pkg="c15", units=[rapid("TestProp", 18000, 80000), rapid("TestPropWF", 18000, 80000), plain("TestDeepResult", shards=dict(quick=1, thorough=1), timeout=dict(quick=900, thorough=3600)), fuzz("FuzzWellFormed", 60)], assumptions=COMMON_ASSUME,
